@@ -174,6 +174,108 @@ theorem history_never_empty (m : Matrix α) (h : m.Inv) (ops : List (Op α)) :
   let ⟨hi, _, _⟩ := history_refines m h ops
   ⟨hi.2.1, hi.2.2, hi.1⟩
 
+/-! ### user closures / iterators that panic part way -/
+
+/-- **User code panicking on its `k`-th call** (`map_mut`, `map_mut_with_index`, `map`,
+    `map_with_index` closures; the `next` of the iterator handed to `insert_row_with` /
+    `insert_column_with`), for every `k`, on every matrix satisfying the invariant: the matrix
+    the caller is left with still satisfies the invariant (size and storage agree, at least 1×1)
+    and abstracts to the documented state — for the in-place maps the cells visited before the
+    panic (row-major) are mapped and the others untouched, in every other case the matrix is
+    unmodified — and the operation panics exactly when the user code is reached at its `k`-th
+    call (or a documented precondition fails). -/
+theorem xstep_refines (m : Matrix α) (h : m.Inv) (x : XOp α) :
+    (m.xexec x).state.Inv ∧ abs (m.xexec x).state = Rows.xnext (abs m) x ∧
+      (m.xexec x).panic.isSome = Rows.xpanics (abs m) x :=
+  xexec_spec m h x
+
+/-- A panic raised by the iterator's `next` or by the closure of an allocating map leaves the
+    matrix exactly as it was (the in-place maps are the only operations that may keep a partial
+    effect, and only on element values). -/
+theorem xpanic_frame (m : Matrix α) (h : m.Inv) (x : XOp α)
+    (hx : (∀ f k, x ≠ .mapMutPanic f k) ∧ (∀ g k, x ≠ .mapMutWithIndexPanic g k))
+    (hp : (m.xexec x).panic ≠ none) : (m.xexec x).state = m := by
+  cases x with
+  | op o => exact panic_frame m h o hp
+  | mapMutPanic f k => exact absurd rfl (hx.1 f k)
+  | mapMutWithIndexPanic f k => exact absurd rfl (hx.2 f k)
+  | mapPanic f k =>
+    simp only [xexec, mapPanic] at hp ⊢
+    split
+    · rfl
+    · rename_i hk
+      rw [if_neg hk] at hp
+      exact panic_frame m h (.map f) hp
+  | mapWithIndexPanic f k =>
+    simp only [xexec, mapWithIndexPanic] at hp ⊢
+    split
+    · rfl
+    · rename_i hk
+      rw [if_neg hk] at hp
+      exact panic_frame m h (.mapWithIndex f) hp
+  | insertRowWithPanic row values k =>
+    simp only [xexec, insertRowWithPanic] at hp ⊢
+    split
+    · split
+      · rfl
+      · rename_i hr hk
+        rw [if_pos hr, if_neg hk] at hp
+        exact panic_frame m h (.insertRowWith row values) hp
+    · rfl
+  | insertColumnWithPanic column values k =>
+    simp only [xexec, insertColumnWithPanic] at hp ⊢
+    split
+    · split
+      · rfl
+      · rename_i hr hk
+        rw [if_pos hr, if_neg hk] at hp
+        exact panic_frame m h (.insertColumnWith column values) hp
+    · rfl
+
+/-- **What the property itself demands of an in-place map whose closure panics** (whatever the
+    visiting order and however much of the work was done — this is the statement the `obs` part
+    of the correspondence compares; the exact pattern of mapped cells of `xstep_refines` is
+    code-shaped detail): the survivor satisfies the invariant, has the size it had, and every
+    cell holds either its old value or the mapped value. -/
+theorem inplace_map_panic_obs (m : Matrix α) (h : m.Inv) (f : α → α) (g : α → Nat → Nat → α)
+    (k i j : Nat) :
+    ((m.mapMutPanic f k).state.Inv ∧ (m.mapMutPanic f k).state.size = m.size ∧
+      (Rows.cell (abs (m.mapMutPanic f k).state) i j = Rows.cell (abs m) i j ∨
+       Rows.cell (abs (m.mapMutPanic f k).state) i j = (Rows.cell (abs m) i j).map f)) ∧
+    ((m.mapMutWithIndexPanic g k).state.Inv ∧ (m.mapMutWithIndexPanic g k).state.size = m.size ∧
+      (Rows.cell (abs (m.mapMutWithIndexPanic g k).state) i j = Rows.cell (abs m) i j ∨
+       Rows.cell (abs (m.mapMutWithIndexPanic g k).state) i j =
+         (Rows.cell (abs m) i j).map fun x => g x i j)) := by
+  obtain ⟨a1, a2, _⟩ := xexec_spec m h (.mapMutPanic f k)
+  obtain ⟨b1, b2, _⟩ := xexec_spec m h (.mapMutWithIndexPanic g k)
+  simp only [Matrix.xexec, Rows.xnext] at a1 a2 b1 b2
+  refine ⟨⟨a1, rfl, ?_⟩, ⟨b1, rfl, ?_⟩⟩
+  · show Rows.cell (m.mapMutPanic f k).state.toRows i j = _ ∨ Rows.cell (m.mapMutPanic f k).state.toRows i j = _
+    rw [a2]; exact cell_mapFirst_old_or_mapped k (fun x _ _ => f x) _ i j
+  · show Rows.cell (m.mapMutWithIndexPanic g k).state.toRows i j = _ ∨
+      Rows.cell (m.mapMutWithIndexPanic g k).state.toRows i j = _
+    rw [b2]; exact cell_mapFirst_old_or_mapped k g _ i j
+
+/-- The in-place maps never change the size, whether or not their closure panics. -/
+theorem inplace_map_keeps_size (m : Matrix α) (f : α → α) (g : α → Nat → Nat → α) (k : Nat) :
+    (m.mapMutPanic f k).state.size = m.size ∧ (m.mapMutWithIndexPanic g k).state.size = m.size :=
+  ⟨rfl, rfl⟩
+
+/-- **Every finite history over the extended alphabet** (ordinary operations with any arguments
+    and user code panicking at any call): invariant, refinement of the list-of-rows history, and
+    identical panic traces. -/
+theorem xhistory_refines (m : Matrix α) (h : m.Inv) (xs : List (XOp α)) :
+    (m.xrun xs).Inv ∧ abs (m.xrun xs) = Rows.xrun (abs m) xs ∧
+      m.xrunTrace xs = Rows.xrunTrace (abs m) xs := by
+  induction xs generalizing m with
+  | nil => exact ⟨h, rfl, rfl⟩
+  | cons x xs ih =>
+    obtain ⟨h1, h2, h3⟩ := xexec_spec m h x
+    obtain ⟨i1, i2, i3⟩ := ih (m.xexec x).state h1
+    simp only [Matrix.xrun, Matrix.xrunTrace, Rows.xrun, Rows.xrunTrace]
+    rw [← h2, ← h3]
+    exact ⟨i1, i2, by rw [i3]⟩
+
 /-! ### constructors establish the invariant -/
 
 /-- `Matrix::from(Vec<Vec<T>>)` accepts exactly the rectangular, at least 1×1 lists of rows … -/
@@ -279,6 +381,37 @@ theorem tryIntoScalar_refines (m : Matrix α) (h : m.Inv) :
     m.tryIntoScalar = .ok (Rows.tryIntoScalar (abs m)) :=
   tryIntoScalar_spec m h
 
+/-- `row_iter(r)` yields row `r` of the list of rows and panics when there is no such row. -/
+theorem rowIter_refines (m : Matrix α) (h : m.Inv) (r : Nat) :
+    m.rowIter r = Rows.rowAt (abs m) r :=
+  rowIter_spec m h r
+
+/-- `column_iter(c)` yields column `c` (top to bottom) and panics when there is no such column. -/
+theorem columnIter_refines (m : Matrix α) (h : m.Inv) (c : Nat) :
+    m.columnIter c = Rows.columnAt (abs m) c :=
+  columnIter_spec m h c
+
+/-- `diagonal_iter()` yields the cells `(i, i)`, for square and non-square matrices, and never
+    panics; in particular none of the unchecked accesses of the three getters leaves the storage. -/
+theorem diagonalIter_refines (m : Matrix α) (h : m.Inv) :
+    m.diagonalIter = .ok (Rows.diagonal (abs m)) :=
+  diagonalIter_spec m h
+
+/-- `==` (`PartialEq`) on matrices satisfying the invariant decides equality of the lists of rows
+    (same size and same elements); without the invariant the `zip` of the storages could stop
+    early, which is why the invariant theorems matter for it. -/
+theorem eq_refines [BEq α] [LawfulBEq α] (a b : Matrix α) (ha : a.Inv) (hb : b.Inv) :
+    a.eqP b = true ↔ abs a = abs b :=
+  eqP_spec a b ha hb
+
+/-- `clone()` of a matrix satisfying the invariant does not panic and is the same matrix. -/
+theorem clone_refines (m : Matrix α) (h : m.Inv) : m.clone = .ok m :=
+  clone_inv m h
+
+/-- the totalisation trap made explicit: on a storage that lost the invariant `==` would call
+    different matrices equal -/
+example : (⟨[1, 2], 1, 2⟩ : Matrix Nat).eqP ⟨[1, 2, 3, 4], 1, 2⟩ = true := by decide
+
 /-! ### the list-of-rows operations are the obvious ones -/
 
 /-- transposition of a well-formed list of rows exchanges the coordinates of every cell -/
@@ -314,6 +447,14 @@ example :
       [.insertRowWith 1 [7, 8], .removeColumn 5, .insertColumnWith 0 [7, 8, 9],
        .retainMut (.not (.single 0)) .all, .transposeMut, .set 0 0 99, .removeRow 3] =
       [true, true, false, false, false, false, false] := by
+  decide
+
+/-- a closure panicking on its call number 4 on a 2×3 matrix: four cells mapped, size kept -/
+example : ((⟨[1, 2, 3, 4, 5, 6], 2, 3⟩ : Matrix Nat).xexec (.mapMutPanic (· + 10) 4)) =
+      ⟨⟨[11, 12, 13, 14, 5, 6], 2, 3⟩, some .explicit⟩ ∧
+    Rows.xnext [[1, 2, 3], [4, 5, 6]] (.mapMutPanic (· + 10) 4 : XOp Nat) = [[11, 12, 13], [14, 5, 6]] ∧
+    ((⟨[1, 2, 3, 4, 5, 6], 2, 3⟩ : Matrix Nat).xexec (.insertColumnWithPanic 0 [7, 8] 1)) =
+      ⟨⟨[1, 2, 3, 4, 5, 6], 2, 3⟩, some .explicit⟩ := by
   decide
 
 /-- constructors: an accepted and a rejected argument for each clause of `constructors_inv` -/
